@@ -528,3 +528,89 @@ pub fn run_big_capacity(tkind: TKind, cap: u32) -> (u64, Vec<(String, String)>) 
     mmio::set_handler(None);
     r
 }
+
+// ------------------------------------------------------------------------------------------------
+// A connection that is closed with unread data, and the next one between the same endpoints: the
+// new connection starts with an empty buffer and its whole advertised credit is usable.
+
+pub fn run_reconnect(tkind: TKind, cap: u32) -> (u64, Vec<(String, String)>) {
+    struct VR {
+        cap: u32,
+    }
+    impl TransportVisitor for VR {
+        type Out = (u64, Vec<(String, String)>);
+        fn visit<T: Transport + 'static>(self, t: T, w: &DWorld) -> Self::Out {
+            let mut out: Vec<(String, String)> = vec![];
+            let dev = make_device(w);
+            cosim::install(&dev.co);
+            let sock = match VirtIOSocket::<LabHal, T, VSOCK_RX>::new(t) {
+                Ok(s) => s,
+                Err(e) => {
+                    cosim::uninstall();
+                    return (0, vec![("construction".into(), format!("{:?}", e))]);
+                }
+            };
+            let cap = self.cap;
+            let mut cm = VsockConnectionManager::new_with_capacity(sock, cap);
+            let peer_hdr = |op: u16, len: u32| Hdr { src_cid: PEER.cid, dst_cid: GUEST_CID, src_port: PEER.port, dst_port: LPORT, len, typ: 1, op, flags: 0, buf_alloc: 64, fwd_cnt: 0 };
+            let mut n = 0u64;
+            for round in 0..3u32 {
+                let _ = cm.connect(PEER, LPORT);
+                dev.deliver(0, &peer_hdr(OP_RESPONSE, 0), &[]);
+                let _ = cm.poll();
+                match cm.recv_buffer_available_bytes(PEER, LPORT) {
+                    Ok(0) => {}
+                    other => {
+                        out.push(("buffered-bytes".into(), format!("round {}: a new connection reports {:?} buffered bytes before its peer has sent anything", round, other)));
+                        break;
+                    }
+                }
+                // The peer uses the whole advertised credit, in packets of up to 5 bytes.
+                let mut sent = 0u32;
+                let mut ok = true;
+                while sent < cap {
+                    let len = (cap - sent).min(5);
+                    let payload: Vec<u8> = (0..len).map(|i| sbyte((round * 1000 + sent + i) as u64)).collect();
+                    dev.deliver(0, &peer_hdr(OP_RW, len), &payload);
+                    match crate::util::catch(|| cm.poll()) {
+                        Ok(Ok(Some(ev))) if ev.event_type == VsockEventType::Received { length: len as usize } => {}
+                        other => {
+                            out.push(("poll-event".into(), format!("round {}: data within the advertised credit ({} of {} bytes so far, packet of {}) -> {:?}", round, sent, cap, len, other)));
+                            ok = false;
+                            break;
+                        }
+                    }
+                    sent += len;
+                    n += 1;
+                }
+                if !ok {
+                    break;
+                }
+                // Part of it is read (and must be what was sent), then the connection is closed.
+                let k = (cap as usize / 2).max(1).min(cap as usize - 1).max(1);
+                let mut buf = vec![0u8; k];
+                match crate::util::catch(|| cm.recv(PEER, LPORT, &mut buf)) {
+                    Ok(Ok(r)) if r == k.min(cap as usize) && (0..r).all(|i| buf[i] == sbyte((round * 1000) as u64 + i as u64)) => {}
+                    other => {
+                        out.push(("recv-data".into(), format!("round {}: recv({}) -> {:?} {:?}", round, k, other, buf)));
+                        break;
+                    }
+                }
+                if cm.force_close(PEER, LPORT).is_err() {
+                    out.push(("force_close".into(), format!("round {}: force_close failed", round)));
+                    break;
+                }
+            }
+            drop(cm);
+            cosim::uninstall();
+            (n, out)
+        }
+    }
+    hal::reset();
+    let mut cfg = vec![0u8; 8];
+    cfg.copy_from_slice(&GUEST_CID.to_le_bytes());
+    let w = DWorld::new(Kind::Socket, tkind, F_VERSION_1, cfg);
+    let r = w.with_transport(VR { cap });
+    mmio::set_handler(None);
+    r
+}
